@@ -190,6 +190,19 @@ func rulePolicySync(c *Ctx, rule string) {
 			}
 			bad, dec := onErrorNever(eb[0], toInstrs(rs))
 			c.ob(rule, fn, "no batch without the basic chains", eb[0], dec && bad == nil, "RestoreAll unreachable from the err!=nil edge of ensureBasicChain")
+			// a pod that no policy selects gets its chains removed whatever its ip: the clean-up decision comes first
+			dl := calls(fn, "(*PolicyManager).deletePodChains")
+			noIP := guardEdges(fn, predEq(func(v ssa.Value) bool { return pathEndsWith(v, "Status", "PodIP") }, func(v ssa.Value) bool { s, ok := constStringVal(v); return ok && s == "" }))
+			okC := len(dl) == 1 && len(noIP) == 1
+			if okC {
+				// deletePodChains must be reachable from entry without taking the "PodIP != \"\"" edge, i.e. it is not behind the ip test
+				okC = reachFromEntry(fn, newCut().edge(edge{noIP[0].from, 1 - noIP[0].succ})).has(dl[0]) && !reachFromEdge(noIP[0], nil).has(dl[0])
+				// stronger: the ip test itself is only reached after the "selected by a policy" decision
+				iff := noIP[0].from.Instrs[len(noIP[0].from.Instrs)-1]
+				fm := calls(fn, polPkg+".filterMatchingPolicies")
+				okC = okC && len(fm) == 1 && precedes(fn, toInstrs(fm), iff)
+			}
+			c.ob(rule, fn, "stale chains of an unselected pod are removed whether or not it has an ip", nil, okC, "deletePodChains is decided before (not behind) the `PodIP == \"\"` early return")
 			// the batch declares the pod chain it fills
 			decl := false
 			for _, w := range calls(fn, polPkg+".writeLine") {
